@@ -1,11 +1,15 @@
 import InTotoModel.Driver.JsonProto
 import InTotoModel.Model.Codec
 /-
-  `doc_dec <kind> <JV> T <n> {<S text> (N | A2 I<instant> S<formatted>)}* K <n> {<JV entry> (N | A2 S<id> <JV rewritten>)}*`
+  `doc_dec <kind> <JV> K <n> {<JV entry> (N | A2 S<id> <JV rewritten>)}*`
   kind ∈ link step insp layout block sig.  The model decodes the document and writes it again;
-  answer `ok <JV, objects sorted>` or `reject`.  The two tables are the behaviour of chrono's RFC 3339
-  reader/writer and of the public-key (de)serialiser on the strings / key descriptions that occur
-  in the document (observed from the real library by the harness).
+  answer `ok <JV, objects sorted>` or `reject`.  The table is the behaviour of the public-key
+  (de)serialiser on the key descriptions that occur in the document (observed from the real library by
+  the harness); `expires` is read and written by the model of chrono's RFC 3339 reader / writer
+  (Model/Time.lean).
+
+  `rfc3339 <hex text>`       → `none` | `ok <secs> <nanos>`       (chrono `parse_from_rfc3339` → UTC)
+  `fmttime <secs> <nanos>`   → `<hex text>`                       (`to_rfc3339_opts(Secs, true)`)
 -/
 namespace InToto.Proto
 open InToto InToto.Wire
@@ -34,32 +38,26 @@ def readTable (tag : String) (toks : List String) : Option (List (JV × JV) × L
       go n rest []
   | _ => none
 
-def mkEnv (times keys : List (JV × JV)) : DocEnv DKey :=
+def mkEnv (keys : List (JV × JV)) : DocEnv DKey :=
   { keyToJson := fun k => k.json
     keyOfJson := fun v =>
       match keys.find? (fun e => showJV e.1 == showJV v) with
       | some (_, .arr [.str id, j]) => some { id := id, json := j }
       | _ => none
     kidOf := fun k => k.id
-    fmtTime := fun i =>
-      match times.find? (fun e => match e.2 with | .arr [.num (.int j), _] => truncSec j == truncSec i | _ => false) with
-      | some (_, .arr [_, .str s]) => s
-      | _ => []
-    parseTime := fun t =>
-      match times.find? (fun e => match e.1 with | .str s => s == t | _ => false) with
-      | some (_, .arr [.num (.int i), _]) => some i
-      | _ => none }
+    fmtTime := Time.fmtTimeKey
+    parseTime := Time.parseTimeKey }
 
 def docDec (toks : List String) : String :=
   match toks with
   | kind :: rest =>
     match readJV rest with
     | some (v, r1) =>
-      match readTable "T" r1 with
-      | some (times, r2) =>
+      match some ((), r1) with
+      | some (_, r2) =>
         match readTable "K" r2 with
         | some (keys, []) =>
-          let E := mkEnv times keys
+          let E := mkEnv keys
           let out : Option (Option JV) :=
             if kind == "link" then some ((linkOfJson v).map linkToJson)
             else if kind == "step" then some ((stepOfJson v).map stepToJson)
@@ -77,5 +75,18 @@ def docDec (toks : List String) : String :=
       | none => "bad-op"
     | none => "bad-op"
   | [] => "bad-op"
+
+def runRfc3339 (h : String) : String :=
+  match strOfHex h with
+  | some s =>
+    match Time.parseRfc3339 s with
+    | some t => s!"ok {t.secs} {t.nanos}"
+    | none => "none"
+  | none => "bad-op"
+
+def runFmtTime (a b : String) : String :=
+  match a.toInt?, b.toNat? with
+  | some secs, some nanos => hexOfStr (Time.fmtRfc3339 { secs := secs, nanos := nanos })
+  | _, _ => "bad-op"
 
 end InToto.Proto
